@@ -455,6 +455,11 @@ impl<R: Read + Seek> ReadDesc<&mut R> for DecoderConfigDescriptor {
         while current < end {
             let (desc_tag, desc_size) = read_desc(reader)?;
             let desc_end = reader.stream_position()? + desc_size as u64;
+            if desc_end > end {
+                return Err(Error::InvalidData(
+                    "descriptor extends beyond the descriptor that holds it",
+                ));
+            }
             if desc_tag == 0x05 {
                 dec_specific = Some(DecoderSpecificDescriptor::read_desc(reader, desc_size)?);
             }
